@@ -38,9 +38,14 @@ def register(R, tier="quick"):
                 p = f["case"].split("-")[0]
                 if p == prop or not p.startswith("C"):
                     f = dict(f)
-                    f["snippet"] = ("import runpy, sys\nsys.argv = ['matchers_bounded.py', '--corpus', %r]\n"
-                                    "runpy.run_path(%r, run_name='__main__')\n"
-                                    % (json.dumps(f["corpus"]), os.path.join(ROOT, "bounded", "matchers_bounded.py")))
+                    if f.get("corpus") is None:
+                        f["snippet"] = ("import runpy, sys\nsys.argv = ['matchers_bounded.py', '--deterministic', %r]\n"
+                                        "runpy.run_path(%r, run_name='__main__')\n"
+                                        % (f["case"], os.path.join(ROOT, "bounded", "matchers_bounded.py")))
+                    else:
+                        f["snippet"] = ("import runpy, sys\nsys.argv = ['matchers_bounded.py', '--corpus', %r]\n"
+                                        "runpy.run_path(%r, run_name='__main__')\n"
+                                        % (json.dumps(f["corpus"]), os.path.join(ROOT, "bounded", "matchers_bounded.py")))
                     fs.append(f)
             out["failures"] = fs
             return out
@@ -87,6 +92,21 @@ def register(R, tier="quick"):
             fs.append(f)
         out["failures"] = fs
         return out
+    def qfn13(tier_, seed):
+        out = dict(qfn(tier_, seed))
+        fs = []
+        for f in out.get("failures", []):
+            if f["case"].endswith("/numrange") or f["case"].endswith("/daterange"):
+                f = dict(f)
+                f["case"] = "C13-" + f["case"]
+                fs.append(f)
+        out["failures"] = fs
+        return out
+    R.bounded_check("queries-bounded@C13", ["C13"], qfn13,
+                    bound="the NumericRange and DateRange queries of queries-bounded (8-bit signed NUMERIC with shift_step 2; DATETIME "
+                          "values one day apart): open, closed and half-open intervals with bounds on and between stored values, over "
+                          "1-3 segments with deletions, every access path",
+                    note="index-level counterpart of the range-splitting proofs: which documents a range query returns")
     R.bounded_check("queries-bounded@C01", ["C01"], qfn,
                     bound="two deterministic large corpora (600 docs: phrase / span-near under limits 1..100 over posting blocks of "
                           "2, 8, 128; 4300 docs: Or of 3 and 4 terms, scored / unscored / sorted) and "
@@ -191,11 +211,20 @@ def register(R, tier="quick"):
             fs = []
             for f in out.get("failures", []):
                 p = f["case"].split("-")[0]
-                if p == prop or not p.startswith("C"):
+                # the whole-index dump compares stored values, column values, postings and vectors: a difference there is a
+                # violation of C06 (layout), C08 (stored/column values) and C10 (postings) alike
+                if p == prop or not p.startswith("C") or (f["case"].startswith("C06-dump") and prop in ("C08", "C10")) \
+                        or (f["case"].startswith("C06-merge-policy") and prop == "C07") \
+                        or (f["case"].startswith("C04-async-deferred") and prop == "C03"):
                     f = dict(f)
-                    f["snippet"] = ("import runpy, sys\nsys.argv = ['index_bounded.py', '--scenario', %r]\n"
-                                    "runpy.run_path(%r, run_name='__main__')\n"
-                                    % (json.dumps(f["corpus"]), os.path.join(ROOT, "bounded", "index_bounded.py")))
+                    if f.get("corpus") is None:
+                        f["snippet"] = ("import runpy, sys\nsys.argv = ['index_bounded.py', '--deterministic', %r]\n"
+                                        "runpy.run_path(%r, run_name='__main__')\n"
+                                        % (f["case"], os.path.join(ROOT, "bounded", "index_bounded.py")))
+                    else:
+                        f["snippet"] = ("import runpy, sys\nsys.argv = ['index_bounded.py', '--scenario', %r]\n"
+                                        "runpy.run_path(%r, run_name='__main__')\n"
+                                        % (json.dumps(f["corpus"]), os.path.join(ROOT, "bounded", "index_bounded.py")))
                     fs.append(f)
             out["failures"] = fs
             return out
